@@ -11,12 +11,14 @@ namespace TfelVerif.C24
 open TfelVerif TfelVerif.Mandel
 set_option linter.unusedVariables false
 set_option linter.unusedSimpArgs false
+set_option linter.unusedSectionVars false
 variable {K : Type} [Field K] [CharZero K]
 
 /-- finishing tactic for the polynomial identities of this property: inverses have been turned into
 atoms beforehand, powers of `c` are reduced with `c * c = 2`. -/
 macro "c24_ring" hc:term : tactic =>
   `(tactic| (first
+      | exact True.intro
       | ring1
       | (ring_nf; (try c_powers $hc); first | done | ring1 | (ring_nf; (try c_powers $hc); ring1))))
 
